@@ -34,17 +34,53 @@ type Obligation struct {
 	ReplayFn string
 }
 
+// State maps state components (heap regions, ghost variables, $alloc) to SMT terms. Components that have not been
+// touched yet are resolved lazily by stGet through the epoch descriptor: base/havoc epochs give an unconstrained
+// constant per component, "alloc" epochs (after a call with a frame) give a constant equal to the parent's version on
+// all objects that existed before the call, "merge" epochs give the ite of the merged predecessors.
 type State struct {
 	m     map[string]string
 	epoch int
+	ep    *epochInfo
+}
+
+type epochInfo struct {
+	kind   string // "", "alloc", "merge"
+	parent *State
+	bound  string // alloc watermark before the call (kind alloc)
+	conds  []string
+	sts    []*State
+	havoc  bool // some havoc-all happened on the way (for frame checks)
 }
 
 func (s *State) clone() *State {
-	n := &State{m: make(map[string]string, len(s.m)), epoch: s.epoch}
+	n := &State{m: make(map[string]string, len(s.m)), epoch: s.epoch, ep: s.ep}
 	for k, v := range s.m {
 		n.m[k] = v
 	}
 	return n
+}
+
+// havocked reports whether an unconstrained havoc of the whole heap lies between the base epoch and this state.
+func (s *State) havocked() bool {
+	if s.epoch == 0 {
+		return false
+	}
+	if s.ep == nil {
+		return true
+	}
+	switch s.ep.kind {
+	case "alloc":
+		return s.ep.parent.havocked()
+	case "merge":
+		for _, p := range s.ep.sts {
+			if p.havocked() {
+				return true
+			}
+		}
+		return false
+	}
+	return true
 }
 
 type VC struct {
@@ -99,12 +135,11 @@ func (vc *VC) frameGoal(h, cur string) string {
 			excl = append(excl, fmt.Sprintf("(= r %s)", t.ref))
 		}
 	}
-	vc.d.add("rootref", "(declare-fun rootref (Int) Int)\n(assert (forall ((p Int)) (! (=> (> p 0) (= (rootref p) p)) :pattern ((rootref p)))))")
 	if len(idxExcl) > 0 {
-		return fmt.Sprintf("(forall ((r Int) (j Int)) (=> (and (> (rootref r) 0) (< (rootref r) $alloc@0) (not %s) (not %s)) (= (select (select %s r) j) (select (select %s r) j))))",
+		return fmt.Sprintf("(forall ((r Int) (j Int)) (=> (and (< (rootref r) $alloc@0) (not (= (rootref r) 0)) (not %s) (not %s)) (= (select (select %s r) j) (select (select %s r) j))))",
 			or(excl...), or(idxExcl...), cur, old)
 	}
-	return fmt.Sprintf("(forall ((r Int)) (=> (and (> (rootref r) 0) (< (rootref r) $alloc@0) (not %s)) (= (select %s r) (select %s r))))", or(excl...), cur, old)
+	return fmt.Sprintf("(forall ((r Int)) (=> (and (< (rootref r) $alloc@0) (not (= (rootref r) 0)) (not %s)) (= (select %s r) (select %s r))))", or(excl...), cur, old)
 }
 
 type ghostDef struct {
@@ -162,8 +197,65 @@ func (vc *VC) stGet(st *State, name string) string {
 	}
 	vc.heapsRead[name] = true
 	n := sym(fmt.Sprintf("%s@e%d", name, st.epoch))
+	if vc.cdecl[n] {
+		return n
+	}
 	vc.declare(n, srt)
+	if st.ep != nil {
+		switch st.ep.kind {
+		case "alloc":
+			old := vc.stGet(st.ep.parent, name)
+			if strings.HasPrefix(srt, "(Array Int ") && !strings.HasPrefix(name, "$") {
+				vc.needRootref()
+				vc.axiom(fmt.Sprintf("(forall ((r Int)) (! (=> (< (rootref r) %s) (= (select %s r) (select %s r))) :pattern ((select %s r))))", st.ep.bound, n, old, n))
+				if vc.d.refHeap[name] {
+					// well-formedness: references stored before the call point to objects allocated before the call
+					vc.axiom(fmt.Sprintf("(forall ((r Int)) (! (< (rootref (select %s r)) %s) :pattern ((select %s r))))", old, st.ep.bound, old))
+				}
+			} else {
+				vc.axiom(fmt.Sprintf("(= %s %s)", n, old))
+			}
+		case "merge":
+			var terms []string
+			for _, p := range st.ep.sts {
+				terms = append(terms, vc.stGet(p, name))
+			}
+			t := terms[len(terms)-1]
+			for j := len(terms) - 2; j >= 0; j-- {
+				t = ite(st.ep.conds[j], terms[j], t)
+			}
+			vc.axiom(fmt.Sprintf("(= %s %s)", n, t))
+		}
+	}
 	return n
+}
+
+func (vc *VC) needRootref() {}
+
+// allocHavoc: a callee with a frame may have allocated and initialised new objects: every heap component is
+// unchanged on objects that existed before the call and unknown on newer ones. Components in keep are left alone
+// (they were havocked explicitly according to the modifies clause).
+func (vc *VC) allocHavoc(st *State) {
+	parent := st.clone()
+	bound := vc.stGet0(st, "$alloc")
+	vc.nepoch++
+	st.epoch = vc.nepoch
+	st.ep = &epochInfo{kind: "alloc", parent: parent, bound: bound}
+	var keys []string
+	for k := range st.m {
+		keys = append(keys, k)
+	}
+	sort.Strings(keys)
+	for _, k := range keys {
+		srt := vc.sortOfState(k)
+		if strings.HasPrefix(k, "$") || !strings.HasPrefix(srt, "(Array Int ") {
+			continue
+		}
+		delete(st.m, k) // re-materialised lazily through the alloc epoch (frame axiom against parent)
+	}
+	na := vc.freshName("$alloc", "Int")
+	st.m["$alloc"] = na
+	vc.axiom(fmt.Sprintf("(>= %s %s)", na, bound))
 }
 
 func (vc *VC) stSet(st *State, name, term string) {
@@ -172,9 +264,10 @@ func (vc *VC) stSet(st *State, name, term string) {
 }
 
 func (vc *VC) havocAll(st *State) {
+	alloc := vc.stGet0(st, "$alloc")
 	vc.nepoch++
 	st.epoch = vc.nepoch
-	alloc := vc.stGet0(st, "$alloc")
+	st.ep = nil
 	for k := range st.m {
 		if strings.HasPrefix(k, "$g.") || strings.HasPrefix(k, "$l.") { // ghost variables and private locals survive
 			continue
@@ -605,7 +698,20 @@ func (vc *VC) typeAssume(term string, t types.Type, st *State) string {
 			}
 		}
 	case *types.Slice:
-		return fmt.Sprintf("(and (>= (s.len %s) 0) (>= (s.cap %s) (s.len %s)) (>= (s.off %s) 0) (=> (= (s.arr %s) 0) (= (s.cap %s) 0)))", term, term, term, term, term, term)
+		wf := fmt.Sprintf("(and (>= (s.len %s) 0) (>= (s.cap %s) (s.len %s)) (>= (s.off %s) 0) (=> (= (s.arr %s) 0) (= (s.cap %s) 0)))", term, term, term, term, term, term)
+		if st != nil {
+			wf = and(wf, fmt.Sprintf("(< (rootref (s.arr %s)) %s)", term, vc.stGet0(st, "$alloc")))
+		}
+		return wf
+	case *types.Pointer, *types.Map, *types.Chan, *types.Signature:
+		// well-formedness: every reference in the program state points to an object allocated so far
+		if st != nil {
+			return fmt.Sprintf("(< (rootref %s) %s)", term, vc.stGet0(st, "$alloc"))
+		}
+	case *types.Interface:
+		if st != nil {
+			return fmt.Sprintf("(< (rootref (i.val %s)) %s)", term, vc.stGet0(st, "$alloc"))
+		}
 	}
 	return "true"
 }
@@ -863,7 +969,7 @@ func (vc *VC) mergeStates(conds []string, sts []*State) *State {
 			sameEpoch = false
 		}
 	}
-	out := &State{m: map[string]string{}, epoch: sts[0].epoch}
+	out := &State{m: map[string]string{}, epoch: sts[0].epoch, ep: sts[0].ep}
 	keys := map[string]bool{}
 	for _, s := range sts {
 		for k := range s.m {
@@ -871,9 +977,14 @@ func (vc *VC) mergeStates(conds []string, sts []*State) *State {
 		}
 	}
 	if !sameEpoch {
-		// components absent from some predecessor have different unknown versions: after the merge they are unknown.
+		// components not materialised yet are resolved lazily as the ite of the predecessors' versions
 		vc.nepoch++
 		out.epoch = vc.nepoch
+		var cs []*State
+		for _, s := range sts {
+			cs = append(cs, s.clone())
+		}
+		out.ep = &epochInfo{kind: "merge", conds: append([]string{}, conds...), sts: cs}
 	}
 	var ks []string
 	for k := range keys {
@@ -881,9 +992,6 @@ func (vc *VC) mergeStates(conds []string, sts []*State) *State {
 	}
 	sort.Strings(ks)
 	for _, k := range ks {
-		if !sameEpoch {
-			// if absent in any, and epochs differ -> must materialise each version
-		}
 		var terms []string
 		for _, s := range sts {
 			terms = append(terms, vc.stGet0(s, k))
